@@ -742,8 +742,11 @@ func (x *Exec) run(fn *ssa.Function, args []Value, st *State, pcIn *Term) (Value
 				}
 				vals[i] = fv
 			case *ssa.Go:
+				if i.Call.IsInvoke() {
+					unsupported("go statement on a method value")
+				}
 				fv, ok := get(i.Call.Value).(*FuncV)
-				if !ok || i.Call.IsInvoke() {
+				if !ok {
 					unsupported("go statement on a non-closure")
 				}
 				// cells captured by the goroutine become shared
